@@ -164,6 +164,89 @@ func valAppend(t, C, shift int, grow bool) (fs []F) {
 			}
 		}
 	}
+	// and the buffer of special values appended to itself: in place (spare capacity for a second copy) or
+	// growing (the source is full)
+	self := src
+	if !grow {
+		self = dyn.Alloc(t, al(C, frames, 2*frames))
+		for i, w := range want {
+			self.SetSample(i, w)
+		}
+	}
+	self.Append(self)
+	if self.Len() != 2*len(want) {
+		return append(fs, core.Failf("Append/value", "%s C=%d grow=%v: Len() = %d after appending a buffer of %d samples to itself", tn(t), C, grow, self.Len(), len(want)))
+	}
+	for i := 0; i < 2*len(want); i++ {
+		if g, w := self.Sample(i), want[i%len(want)]; !valSame(g, w) {
+			return append(fs, core.Failf("Append/value", "%s C=%d grow=%v: a buffer of special values appended to itself reads %v (bits %#x) at %d, want %v (bits %#x)", tn(t), C, grow, g, g.B, i, w, w.B))
+		}
+	}
+	return
+}
+
+// valReadWrite: special values that both element types hold (the specials of the narrower one) written
+// through Write / WriteStriped[S, D] into a buffer whose cells hold the other specials, and read
+// back through Read / ReadStriped[D, S] into slices holding yet other ones; bit patterns must
+// survive.  s and d are of the same kind (float, signed or unsigned).
+func valReadWrite(s, d, C int) (fs []F) {
+	nt := s
+	if dyn.Types[d].Bits < dyn.Types[s].Bits {
+		nt = d
+	}
+	sp := valSpecials(nt)
+	n := len(sp)
+	b := dyn.Alloc(d, al(C, n, n))
+	bad := func(fn string, i int, got, want dyn.Val) []F {
+		return append(fs, core.Failf(fn+"/value", "%s <-> %s C=%d: %s of the special value %v (bits %#x) at interleaved position %d yields %v (bits %#x); values both types hold pass unchanged", tn(s), tn(d), C, fn, want, want.B, i, got, got.B))
+	}
+	for shift := 0; shift < n; shift++ {
+		at := func(i, k int) dyn.Val { return sp[(i+shift+k)%n] }
+		src := dyn.NewSl(s, C*n)
+		for i := 0; i < C*n; i++ {
+			src.Set(i, at(i, 0))
+		}
+		if r := dyn.Write(src, b); r != n {
+			return append(fs, core.Failf("Write/return", "%s -> %s C=%d: Write of %d samples into %d frames returned %d", tn(s), tn(d), C, C*n, n, r))
+		}
+		for i := 0; i < C*n; i++ {
+			if g := b.Sample(i); !valSame(g, at(i, 0)) {
+				return bad("Write", i, g, at(i, 0))
+			}
+		}
+		out := dyn.NewSl(s, C*n)
+		for i := 0; i < C*n; i++ {
+			out.Set(i, at(i, 1))
+		}
+		dyn.Read(b, out)
+		for i := 0; i < C*n; i++ {
+			if g := out.Get(i); !valSame(g, at(i, 0)) {
+				return bad("Read", i, g, at(i, 0))
+			}
+		}
+		rows, outs := make([]dyn.Sl, C), make([]dyn.Sl, C)
+		for c := range rows {
+			rows[c], outs[c] = dyn.NewSl(s, n), dyn.NewSl(s, n)
+			for f := 0; f < n; f++ {
+				rows[c].Set(f, at(f*C+c, 2))
+				outs[c].Set(f, at(f*C+c, 3))
+			}
+		}
+		dyn.WriteStriped(s, rows, false, b)
+		for i := 0; i < C*n; i++ {
+			if g := b.Sample(i); !valSame(g, at(i, 2)) {
+				return bad("WriteStriped", i, g, at(i, 2))
+			}
+		}
+		dyn.ReadStriped(b, s, outs, false)
+		for c := range outs {
+			for f := 0; f < n; f++ {
+				if g := outs[c].Get(f); !valSame(g, at(f*C+c, 2)) {
+					return bad("ReadStriped", f*C+c, g, at(f*C+c, 2))
+				}
+			}
+		}
+	}
 	return
 }
 
